@@ -7,7 +7,8 @@
     * the iteration of the translated one-pass function `genShiftSkel_step` up to the loop bound (the C++ `for` with an extra `i++`
       in its body is outside the translator's canonical-loop subset);
     * which buffers each `perform_op(x, y)` call receives (`Buf`), one call per factorization step plus one inside `expand_basis`
-      (first try only) when the breakdown branch is taken;
+      (first try only) when the breakdown branch is taken; §4 ties each `Buf` to the root object and STORAGE CLASS that the
+      translator reads off the call sites on every run (`Gen.Restart.opSites`);
     * every floating-point comparison is an ORACLE: `IterOracle.nconv` (num_converged), `.est`/`.val` (Ritz data read by the
       translated restart-size function), `.bd i` (breakdown test of factorization step i: `m_beta < m_near_0`, resp. the two Lanczos
       criteria).  Theorems quantify over all oracles; the driver feeds the outcomes observed on the real code.
@@ -242,5 +243,70 @@ decreasing_by split <;> omega
 /-- validity of one call for operator dimension n and basis size ncv: distinct buffers, and a column of V exists -/
 def Call.valid (ncv : Int) (c : Call) : Prop :=
   c.x ≠ c.y ∧ (∀ j, c.x = .vcol j → 0 ≤ j ∧ j < ncv) ∧ (∀ j, c.y = .vcol j → 0 ≤ j ∧ j < ncv)
+
+/-! ## 4. where the buffers live: the model's `Buf` against the regenerated STORAGE table `Gen.Restart.opSites` / `opParamBinds`
+    (every `perform_op(x, y)` call of solver code, with the root object each pointer comes from and that object's storage class) -/
+section storage
+open Gen.Restart
+
+/-- the three code paths that reach the user's operator -/
+inductive Fam where
+  | herm | gen | cshift
+  deriving Repr, DecidableEq
+
+/-- the member functions (class, name) whose `perform_op` calls a family executes: Lanczos overrides `factorize_from` and inherits
+    `init` / `expand_basis` from Arnoldi; the complex-shift solver adds the probe solves of `sort_ritzpair` -/
+def Fam.fns : Fam → List (String × String)
+  | .herm => [("Arnoldi", "init"), ("Arnoldi", "expand_basis"), ("Lanczos", "factorize_from")]
+  | .gen => [("Arnoldi", "init"), ("Arnoldi", "expand_basis"), ("Arnoldi", "factorize_from")]
+  | .cshift => [("GenEigsComplexShiftSolver", "sort_ritzpair")]
+
+/-- the source-level root (kind, variable) a model buffer stands for -/
+def Buf.src : Buf → String × String
+  | .user => ("param", "init_resid")
+  | .vcol _ => ("member", "m_fac_V")
+  | .w => ("local", "w")
+  | .f => ("member", "m_fac_f")
+  | .tmp => ("local", "v")
+  | .probeIn c => ("local", if c = 0 then "v_real" else "v_imag")
+  | .probeOut c => ("local", if c = 0 then "OPv_real" else "OPv_imag")
+
+/-- OWNED by the running call: an AUTOMATIC local of the calling function (one object per activation, so two activations — nested,
+    on other threads, of other solver objects — never share it) or a data member `m_fac_V` / `m_fac_f` of the factorization object.
+    `static`, `thread_local`, global and unresolved roots are not owned. -/
+def ownedTerminal (r : BufRoot) : Bool :=
+  (r.kind == "local" && r.storage == "automatic") ||
+  (r.kind == "member" && r.storage == "member" && (r.name == "m_fac_V" || r.name == "m_fac_f"))
+
+/-- a parameter is owned when the argument bound to it is, or when it is the vector the USER passed to the public `init(init_resid)` -/
+def bindOwned (b : ParamBind) : Bool :=
+  ownedTerminal b.root ||
+  (b.root.kind == "param" && b.root.name == "init_resid" && b.caller == "init" && (b.cls == "HermEigsBase" || b.cls == "GenEigsBase"))
+
+def bindsOf (cls fn : String) (r : BufRoot) : List ParamBind :=
+  opParamBinds.filter (fun b => b.callee == cls ++ "::" ++ fn && b.param == r.name)
+
+/-- a root of the table is owned; a parameter root: it is bound somewhere and EVERY call in the library binds an owned object -/
+def rootOwned (cls fn : String) (r : BufRoot) : Bool :=
+  if r.kind == "param" then !(bindsOf cls fn r).isEmpty && (bindsOf cls fn r).all bindOwned else ownedTerminal r
+
+/-- the root of the table is the object `s` (parameters: at every call) -/
+def rootIs (cls fn : String) (r : BufRoot) (s : String × String) : Bool :=
+  if r.kind == "param" then !(bindsOf cls fn r).isEmpty && (bindsOf cls fn r).all (fun b => (b.root.kind, b.root.name) == s)
+  else (r.kind, r.name) == s
+
+def siteOwned (s : OpSite) : Bool := rootOwned s.cls s.fn s.x && rootOwned s.cls s.fn s.y
+def siteMatches (s : OpSite) (x y : String × String) : Bool := rootIs s.cls s.fn s.x x && rootIs s.cls s.fn s.y y
+
+/-- a pair of model buffers (x, y) of family `fam` is backed by the source: SOME call site of the family's functions hands exactly
+    these objects to the operator, and EVERY such site hands only owned storage -/
+def OwnedShape (fam : Fam) (x y : String × String) : Prop :=
+  (∃ s ∈ opSites, (s.cls, s.fn) ∈ fam.fns ∧ siteMatches s x y = true) ∧
+  (∀ s ∈ opSites, (s.cls, s.fn) ∈ fam.fns → siteMatches s x y = true → siteOwned s = true)
+
+instance (fam : Fam) (x y : String × String) : Decidable (OwnedShape fam x y) := by unfold OwnedShape; infer_instance
+
+def Call.owned (fam : Fam) (c : Call) : Prop := OwnedShape fam c.x.src c.y.src
+end storage
 
 end RestartIdx
